@@ -147,7 +147,7 @@ def kin_cases(ctx, n_models):
 # ----------------------------------------------------------------------------- (c) pipelines
 
 
-def grad_case(rng, pipeline_name, n_steps, singular, opts=None):
+def grad_case(rng, pipeline_name, n_steps, singular, opts=None, active_limits=False):
   """returns None if ok else failure dict"""
   _setup()
   import importlib
@@ -162,6 +162,23 @@ def grad_case(rng, pipeline_name, n_steps, singular, opts=None):
   sysm = mjcf.loads(xml)
   q, qd = modelgen.rand_state(rng, sysm, q_range=0.6, qd_range=0.5)
   ctrl = rng.uniform(-1, 1, size=sysm.act_size())
+  if active_limits:
+    # joint limits ACTIVE and well away from the switching point: limited joints are put 0.05-0.3 beyond their range
+    lim = np.asarray(sysm.dof.limit[0]), np.asarray(sysm.dof.limit[1])
+    qpos = dpos = 0
+    moved = 0
+    for t in sysm.link_types:
+      wq, wd = (7, 6) if t == 'f' else (int(t), int(t))
+      if t != 'f':
+        for j in range(wd):
+          lo, hi = float(lim[0][dpos + j]), float(lim[1][dpos + j])
+          if np.isfinite(lo) and np.isfinite(hi) and (moved == 0 or rng.random() < 0.6):
+            m = float(rng.uniform(0.05, 0.3))
+            q[qpos + j] = hi + m if rng.random() < 0.5 else lo - m
+            moved += 1
+      qpos += wq; dpos += wd
+    if moved == 0:
+      return None
   if singular:
     # at rest, zero joint angles, zero control: every whole-vector guard (safe_norm of a zero velocity, coincident
     # anchors, contact-point velocity exactly along the normal) sits on its singular point
@@ -184,7 +201,7 @@ def grad_case(rng, pipeline_name, n_steps, singular, opts=None):
   z0 = jp.asarray(np.concatenate([q, qd, ctrl]))
   g = np.asarray(jax.jit(jax.grad(loss))(z0))
   base = dict(xml=xml, q=q.tolist(), qd=qd.tolist(), ctrl=ctrl.tolist(), pipeline=pipeline_name, n_steps=n_steps,
-              singular=singular, weights=wts.tolist(), types=mt['link_types'])
+              singular=singular, active_limits=active_limits, weights=wts.tolist(), types=mt['link_types'])
   if not np.all(np.isfinite(g)):
     return dict(key=f'grad-nonfinite:{pipeline_name}', what=f'jax.grad through {n_steps} {pipeline_name} steps is not finite', grad=g.tolist(), **base)
   if singular:
@@ -220,6 +237,14 @@ def grad_cases(ctx, n_per_pipeline, seed_offset=0):
       n += 1
       if r is not None:
         fails.append(r)
+    # joint limits active, away from the switching point: the derivative of the limit/constraint forces is compared too
+    # (the generalized pipeline solves for the constraint force iteratively: three cases there)
+    for k in range(n_per_pipeline * (3 if name == 'generalized' else 1)):
+      r = grad_case(rng, name, n_steps=2, singular=False, active_limits=True,
+                    opts=dict(n_links=(1, 2), limits=1.0, roots='world'))
+      n += 1
+      if r is not None:
+        fails.append(r)
   return n, fails
 
 
@@ -232,7 +257,7 @@ def correspond(ctx):
       rule='(a) 8 leaf functions x random points + singular points (zero vectors, |x|=1, x=1-1e-7): jax.jvp vs dual-number Lean model '
            '(1e-8); (b) generator models x {random state, q=0 & qd=0}: jax.jvp(kinematics.forward) vs Kin.forward over Dual Float; '
            '(c) jax.grad through init + 1-2 steps of generalized/spring/positional w.r.t. (q, qd, ctrl): finite (also at q=0, qd=0) and '
-           'equal to central differences (regular inputs, no contacts/limits)',
+           'equal to central differences (regular inputs without limits; and inputs with joint limits ACTIVE 0.05-0.3 beyond the range, away from switching)',
       samples=[dict(leaf='normalize3', x=[0, 0, 0]), dict(kin='generator model, q=0, qd=0')],
       disagreements=dis_l + dis_k, spec_failures=fails_l + fails_k + fails_g,
       trusted_base=['correspondence harness corr_C03.py; jax.jvp/jax.grad as the implementation-side derivative',
